@@ -14,7 +14,7 @@ GoodThomasAlgorithmSmall, RadixN, Radix4, the butterflies, the chunk helpers and
 points), not about a model of it.  The six closed evaluations `planned_chunk{0..5}_check` (Props/C01PlannedChunk*.lean, split only so that they build in
 parallel) are, with `scalar_butterflies_check`, the only uses of `native_decide` in the project.
 -/
-import RFV.Props.C01Bfly
+import RFV.Props.C01BflyCx
 import RFV.Gen.Planned
 import RFV.Props.C01PlannedChunk0
 import RFV.Props.C01PlannedChunk1
@@ -44,6 +44,12 @@ theorem small_planned_are_dft (P : RawProg) (hP : P ∈ Gen.allPlanned) (S : Cos
       ∑ j ∈ range P.n, (x (2 * j + 1) * gridCos S P.n (j * k) -
         (if P.inverse then -1 else 1) * (x (2 * j) * gridSin S P.n (j * k))) :=
   checked_program_is_dft P (List.all_eq_true.mp small_planned_check P hP) S x k hk
+
+/-- the same in the form of the tree semantics: the whole real transform, run on an array of complex pairs (the rest of
+what it can read being arbitrary), is `semDft` of its length -/
+theorem small_planned_eq_semDft (P : RawProg) (hP : P ∈ Gen.allPlanned) (S : CosSys R P.grid) (invR : Nat → R)
+    (x : Array (Cx R)) : bflySem P S x = semDft (cosCtx S P.inverse invR) P.n x :=
+  checked_program_eq_semDft P (List.all_eq_true.mp small_planned_check P hP) S invR x
 
 /-- **C08 / C07 on the code**: the outputs do not depend on anything but the chunk's own `2n` input scalars — not on
 the initial contents of the scratch, not on the initial contents of the output buffer, not on the other chunk of a
